@@ -785,7 +785,11 @@ where
             }
             Instruction::MStructSet(n) => {
                 let n: usize = n.into();
-                let mut field_name_value_pairs = Vec::with_capacity(n);
+                // `n` comes straight from the bytecode. Every pair pops two
+                // values, so never reserve more than the stack can supply:
+                // an oversized operand must end in a stack underflow error,
+                // not in an allocation panic.
+                let mut field_name_value_pairs = Vec::with_capacity(n.min(self.stack.len()));
 
                 for _ in 0..n {
                     let field_val = self.ipop_value()?;
